@@ -109,6 +109,32 @@ func genC01(c *Ctx) {
 			}
 		}
 	}
+	// exactly n distinct cells around the widths of the cell counter / reference
+	// size (every cell carries its own index, so nothing is de-duplicated)
+	for _, cnt := range []int{254, 255, 256, 257} {
+		for _, shape := range []string{"fan", "chainfan"} {
+			dag := exactDag(cnt, shape)
+			for _, o := range []int{0, 7, r.Intn(8)} {
+				in := sx.L(dagSx(dag), sx.Nat(0), sx.B(o&1 != 0), sx.B(o&2 != 0), sx.B(o&4 != 0))
+				out := c.Emit("c01.ser", in, fmt.Sprintf("exact%d|%s|opt%d", cnt, shape, o))
+				if out.K == sx.KL && len(out.List) == 2 && !out.List[1].Bool {
+					c.Fail("c01.ser", in, "roundtrip", fmt.Sprintf("own output of a DAG with exactly %d distinct cells does not parse back", cnt))
+				}
+			}
+		}
+	}
+	// the two-byte boundary: too large for the extracted model in reasonable
+	// time, so only the round-trip oracle on the implementation runs
+	for _, cnt := range []int{65535, 65536, 65537} {
+		dag := exactDag(cnt, "fan")
+		for _, o := range []int{0, 7} {
+			in := sx.L(sx.Nat(cnt), sx.Nat(o))
+			if what := c01BigRoundTrip(dag, o); what != "" {
+				c.Fail("c01.big", in, "roundtrip-big", fmt.Sprintf("DAG with exactly %d distinct cells, options %d: %s", cnt, o, what))
+			}
+			c.Note("c01.big", fmt.Sprintf("big%d|opt%d", cnt, o), in)
+		}
+	}
 	// deep chains around the depth limit
 	for _, depth := range []int{1022, 1023, 1024, 1025} {
 		if !c.Thorough() && depth != 1023 && depth != 1024 {
@@ -124,6 +150,73 @@ func genC01(c *Ctx) {
 		in := sx.L(dagSx(dag), sx.Nat(0), sx.B(false), sx.B(true), sx.B(false))
 		c.Emit("c01.ser", in, fmt.Sprintf("chain|depth%d", depth))
 	}
+}
+
+// exactDag builds a DAG of exactly n pairwise different cells reachable from
+// cell 0: "fan" is a 4-ary heap, "chainfan" a chain whose cells also point to
+// leaves.
+func exactDag(n int, shape string) []Node {
+	dag := make([]Node, n)
+	for i := range dag {
+		dag[i].Bits = fmt.Sprintf("%024b", i)
+	}
+	switch shape {
+	case "fan":
+		for i := range dag {
+			for k := 1; k <= 4; k++ {
+				if ch := 4*i + k; ch < n {
+					dag[i].Refs = append(dag[i].Refs, ch)
+				}
+			}
+		}
+	default:
+		// cells 0..m-1 form a chain, every chain cell also refers to up to 3 leaves
+		m := (n + 3) / 4
+		next := m
+		for i := 0; i < m; i++ {
+			if i+1 < m {
+				dag[i].Refs = append(dag[i].Refs, i+1)
+			}
+			for k := 0; k < 3 && next < n; k++ {
+				dag[i].Refs = append(dag[i].Refs, next)
+				next++
+			}
+		}
+	}
+	return dag
+}
+
+func c01BigRoundTrip(dag []Node, o int) (what string) {
+	defer func() {
+		if r := recover(); r != nil {
+			what = fmt.Sprintf("panic: %v", r)
+		}
+	}()
+	cells, err := buildGo(dag)
+	if err != nil {
+		return "cannot build: " + err.Error()
+	}
+	root := cells[0]
+	out, err := root.ToBocCustom(o&1 != 0, o&2 != 0, o&4 != 0, 0)
+	if err != nil {
+		return "serialise: " + err.Error()
+	}
+	back, err := boc.DeserializeBoc(out)
+	if err != nil {
+		return "own output rejected: " + err.Error()
+	}
+	if len(back) != 1 {
+		return "own output has several roots"
+	}
+	h0, e0 := root.Hash()
+	h1, e1 := back[0].Hash()
+	if e0 != nil || e1 != nil || !bytes.Equal(h0, h1) {
+		return "own output parses to a different hash"
+	}
+	if !sameStructure(root, back[0], map[[2]*boc.Cell]bool{}) {
+		return "own output parses to a different structure"
+	}
+	return ""
 }
 
 func bucket(n int) int {
